@@ -49,7 +49,7 @@ func propDefs() map[string]*PropDef {
 		},
 		DesignRef: "DESIGN.md section 5 C10",
 	}
-	safetyInc := []string{`^safety/`, `^cast/`, `^extent/`, `/call:`, `/closure:`, `/captures/`, `/loop\d+/`, `/pure`, `/noop_frame`, `/result`, `/live`, `/none_iff_empty`}
+	safetyInc := []string{`^safety/`, `/reach@`, `^cast/`, `^extent/`, `/call:`, `/closure:`, `/captures/`, `/loop\d+/`, `/pure`, `/noop_frame`, `/result`, `/live`, `/none_iff_empty`}
 	m["C01"] = &PropDef{
 		ID: "C01",
 		Funcs: append(treeFuncs([]string{"Search", "Delete", "Insert"},
